@@ -64,8 +64,8 @@ Definition simple_content (cs : list child) : Prop :=
 Inductive qtok :=
 | QChar (c : N)          (* any character but backslash, quote, apostrophe *)
 | QEsc (c : N)           (* backslash and any character but newline *)
-| QApos                  (* ' *)
-| QQuote.                (* " *)
+| QApos                  (* a bare apostrophe *)
+| QQuote.                (* a bare straight quote *)
 
 Definition c_bs : N := 92.
 Definition c_quote : N := 34.
@@ -89,7 +89,7 @@ Definition qrender1 (t : qtok) : str :=
 Definition qrender (ts : list qtok) : str := concat (map qrender1 ts).
 
 (* doubled straight quotes: [pending] = the previous character is a quote
-   character (bare, or the second character of \") not yet part of a pair *)
+   character (bare, or the second character of an escaped quote) not yet part of a pair *)
 Fixpoint q_doubles (pending : bool) (ts : list qtok) (off : nat) : list nat :=
   match ts with
   | [] => []
@@ -100,15 +100,34 @@ Fixpoint q_doubles (pending : bool) (ts : list qtok) (off : nat) : list nat :=
   end.
 
 (* what the silencer leaves: escapes and pairs of bare quotes become blanks *)
+Definition q_blank : qtok := QChar 32.
+
 Fixpoint q_silence (ts : list qtok) : list qtok :=
   match ts with
   | [] => []
-  | QEsc _ :: ts' => QChar 32 :: QChar 32 :: q_silence ts'
-  | QQuote :: ts' =>
-      match ts' with
-      | QQuote :: ts'' => QChar 32 :: QChar 32 :: q_silence_skip ts''
-      | _ => QQuote :: q_silence ts'
-      end
+  | QEsc _ :: ts' => q_blank :: q_blank :: q_silence ts'
+  | QQuote :: QQuote :: ts'' => q_blank :: q_blank :: q_silence ts''
   | t :: ts' => t :: q_silence ts'
-  end
-with q_silence_skip (ts : list qtok) : list qtok := q_silence ts.
+  end.
+
+Definition is_qquote (t : qtok) : bool := match t with QQuote => true | _ => false end.
+
+(* the silenced value starts and ends with a quote *)
+Definition q_quoted (ts : list qtok) : bool :=
+  let s := q_silence ts in
+  match s with
+  | [] => false
+  | t :: _ => is_qquote t && is_qquote (last s t)
+  end.
+
+(* offsets of the bare apostrophes *)
+Fixpoint q_apostrophes (ts : list qtok) (off : nat) : list nat :=
+  match ts with
+  | [] => []
+  | QApos :: ts' => off :: q_apostrophes ts' (S off)
+  | t :: ts' => q_apostrophes ts' (off + length (qrender1 t))
+  end.
+
+Definition quoting_model (ts : list qtok) : list issue :=
+  map (lit_issue y_double_quotes) (q_doubles false ts 0) ++
+  (if q_quoted ts then [] else map (lit_issue y_apostrophe) (q_apostrophes ts 0)).
